@@ -16,6 +16,13 @@
   PIPE device nat circ np pass*np
      pass := PRE | STAR | PLACE (ERR | k w*k) | ROUTE (ERR | gates nl l*nl) | UNROLL (ERR | gates)
      -> per pass "n | wires | qlen | layout | validation bit ;" … "# p c d s" of the final circuit, or ERR@i
+     then "@ placed conn dec" (the flags placedAfter / connAfter / decAfter of the pass list) and "L layout"
+  tables := TABLE*6 (gpi2 u3 cz iswap opt cnot), TABLE = k cls*k r ROW*r, ROW = cls tag m ugate*m,
+            ugate = cls nq q*nq tag cb       (the format of DriverC10.lean, class ids of C10)
+  LOCAL tables                   -> localCheck (true / false)
+  DISPATCH nat fuel tables m ugate*m
+     -> "closed local inputok | ERR"  or  "closed local inputok | OK cls:q,q:tag … | unrollOk bit"
+        (the unroller pass computed by C10's dispatch model on the queue)
 -/
 import QV.Model.Pipeline
 open QV.Pipe
@@ -71,6 +78,43 @@ def nextPairs : P (List (Nat × Nat)) := do
     out := (a, b) :: out
   pure out.reverse
 
+def nextUGate : P QV.Unroll.UGate := do
+  let c ← nextNat
+  let qs ← nextList
+  let tag ← nextNat
+  let cb ← nextNat
+  pure { cls := c, qubits := qs, tag := tag, cb := cb != 0 }
+
+def nextUGates : P (List QV.Unroll.UGate) := do
+  let k ← nextNat
+  let mut out := []
+  for _ in [0:k] do
+    out := (← nextUGate) :: out
+  pure out.reverse
+
+def nextTable : P QV.Unroll.TableData := do
+  let cs ← nextList
+  let r ← nextNat
+  let mut rows := []
+  for _ in [0:r] do
+    let c ← nextNat
+    let t ← nextNat
+    let gs ← nextUGates
+    rows := (c, t, gs) :: rows
+  pure { classes := cs, rows := rows.reverse }
+
+def nextTables : P QV.Unroll.TablesData := do
+  let a ← nextTable
+  let b ← nextTable
+  let c ← nextTable
+  let d ← nextTable
+  let e ← nextTable
+  let f ← nextTable
+  pure ⟨a, b, c, d, e, f⟩
+
+def showPGate (g : PGate) : String :=
+  s!"{g.cls}:{",".intercalate (g.qs.map toString)}:{g.tag}"
+
 def nextDevice : P Device := do
   let nodes ← nextList
   let edges ← nextPairs
@@ -117,14 +161,6 @@ def showState (s : PState) : String :=
     | some l => "L " ++ showNats l
   s!"{s.circ.nqubits} | {showNats s.circ.wires} | {s.circ.queue.length} | {l}"
 
-def validate (d : Device) (nat : Nat) (s : PState) : Pass → Bool
-  | .pre => true
-  | .star => true
-  | .placer (some w) => permOf d w
-  | .router (some (q, l)) => routeOk d s.circ q l
-  | .unroller (some q) => unrollOk nat s.circ.queue q
-  | _ => true
-
 def handle : P String := do
   let cmd ← nextTok
   match cmd with
@@ -166,10 +202,12 @@ def handle : P String := do
     let mut s : PState := ⟨c, none⟩
     let mut out := ""
     let mut failed := false
+    let mut ps : List Pass := []
     for i in [0:np] do
       let (p, _) ← nextPass
+      ps := ps ++ [p]
       if !failed then
-        let v := validate d nat s p
+        let v := validPass d nat s p
         match runPass d s p with
         | none =>
           out := out ++ s!"ERR@{i}"
@@ -179,7 +217,23 @@ def handle : P String := do
           out := out ++ s!"{showState s} | {bit v} ; "
     if failed then pure out
     else
-      pure s!"{out}# {bit (assertPlacement d s.circ)} {bit (assertConnectivity d s.circ)} {bit (assertDecomposition nat s.circ)} {bit (isSatisfied d nat s.circ)}"
+      let lay := match layoutAfter none ps with
+        | none => "N"
+        | some l => "L " ++ showNats l
+      pure s!"{out}# {bit (assertPlacement d s.circ)} {bit (assertConnectivity d s.circ)} {bit (assertDecomposition nat s.circ)} {bit (isSatisfied d nat s.circ)} @ {bit (placedAfter false ps)} {bit (connAfter false ps)} {bit (decAfter false ps)} {lay}"
+  | "LOCAL" =>
+    let D ← nextTables
+    pure (toString (localCheck D))
+  | "DISPATCH" =>
+    let nat ← nextNat
+    let fuel ← nextNat
+    let D ← nextTables
+    let gs ← nextUGates
+    let q := gs.map PGate.ofU
+    let head := s!"{bit (QV.Unroll.closedCheck D nat)} {bit (localCheck D)} {bit (unrollInputOk nat q && gs.all (fun x => !x.cb))}"
+    match unrollDispatch D.toTables nat fuel q with
+    | none => pure s!"{head} | ERR"
+    | some out => pure s!"{head} | OK {" ".intercalate (out.map showPGate)} | {bit (unrollOk nat q out)}"
   | "" => pure ""
   | c => pure s!"bad-op {c}"
 
